@@ -12,8 +12,9 @@ side condition is that the `uint64` counter does not wrap during the calls consi
 import Vegeta.Model.RoundRobin
 import Vegeta.Extracted.Facts
 import Vegeta.Props.C10
+import Vegeta.Model.Commands
 namespace Vegeta.Props.C13
-open Vegeta.Go Vegeta.Model.RoundRobin
+open Vegeta.Go Vegeta.Model.RoundRobin Vegeta.Model.Commands
 
 /-- all inputs are exhausted -/
 def AllEmpty {α} (rem : List (List α)) : Prop := ∀ l ∈ rem, l = []
@@ -433,6 +434,308 @@ example : ∃ out₁ s₁ out₂ s₂,
   exact ⟨o1, s1, o2, s2, h1, h2, h3⟩
 
 end Report
+
+/-! ### the rotation counter at its wrap (exactly what holds) -/
+
+theorem aux_incSeq_mod (n seq : Nat) (hd : n ∣ two64) : incSeq seq % n = (seq + 1) % n := by
+  unfold incSeq; exact Nat.mod_mod_of_dvd _ hd
+
+/-- if the number of decoders divides 2^64, the loop depends on the counter only through its residue -/
+theorem aux_loop_congr {α} (n : Nat) (hd : n ∣ two64) : ∀ (fuel : Nat) (decs : List (Dec α)) (s1 s2 : Nat)
+    (last : Option Nat), decs.length = n → s1 % n = s2 % n →
+    (rrLoop fuel decs s1 last).1 = (rrLoop fuel decs s2 last).1 ∧
+    (rrLoop fuel decs s1 last).2.1 = (rrLoop fuel decs s2 last).2.1 ∧
+    (rrLoop fuel decs s1 last).2.2 % n = (rrLoop fuel decs s2 last).2.2 % n := by
+  intro fuel
+  induction fuel with
+  | zero => intro decs s1 s2 last _ h; exact ⟨rfl, rfl, h⟩
+  | succ fuel ih =>
+    intro decs s1 s2 last hl h
+    have hinc : incSeq s1 % n = incSeq s2 % n := by
+      rw [aux_incSeq_mod n s1 hd, aux_incSeq_mod n s2 hd, Nat.add_mod, h, ← Nat.add_mod]
+    simp only [rrLoop, hl, h]
+    cases hp : pop (decs.getD (s2 % n) []) with
+    | mk res d' =>
+      cases res with
+      | ok a => exact ⟨rfl, rfl, hinc⟩
+      | error e => exact ih _ _ _ _ (by simp [hl]) hinc
+
+theorem aux_decode_congr {α} (decs : List (Dec α)) (hd : decs.length ∣ two64) (s1 s2 : Nat)
+    (h : s1 % decs.length = s2 % decs.length) :
+    (rrDecode ⟨decs, s1⟩).1 = (rrDecode ⟨decs, s2⟩).1 ∧
+    (rrDecode ⟨decs, s1⟩).2.decs = (rrDecode ⟨decs, s2⟩).2.decs ∧
+    (rrDecode ⟨decs, s1⟩).2.seq % decs.length = (rrDecode ⟨decs, s2⟩).2.seq % decs.length := by
+  match decs, hd, h with
+  | [d], _, h =>
+    simp only [rrDecode]
+    cases pop d with
+    | mk res d' => cases res <;> exact ⟨rfl, rfl, h⟩
+  | [], hd, _ => exact absurd (show two64 = 0 by simpa using hd) (by decide)
+  | d1 :: d2 :: ds, hd, h =>
+    have := aux_loop_congr _ hd (d1 :: d2 :: ds).length (d1 :: d2 :: ds) s1 s2 none rfl h
+    simpa [rrDecode] using this
+
+theorem aux_half (n : Nat) (hd : n ∣ two64) (hlt : n < two64) : n + n ≤ two64 := by
+  obtain ⟨k, hk⟩ := hd
+  have hk2 : 2 ≤ k := by
+    rcases k with _ | _ | k
+    · simp [two64] at hk
+    · omega
+    · omega
+  calc n + n = n * 2 := by omega
+    _ ≤ n * k := Nat.mul_le_mul_left n hk2
+    _ = two64 := hk.symm
+
+/-- one call, any counter value, when the number of inputs divides 2^64: as `aux_decode_spec`, without
+the no-wrap condition -/
+theorem aux_decode_spec_dvd {α} (rem : List (List α)) (seq : Nat) (hn : 0 < rem.length)
+    (hd : rem.length ∣ two64) (hlt : rem.length < two64) :
+    (∃ j a t seq', rem.getD j [] = a :: t ∧ j < rem.length ∧
+        rrDecode ⟨ofInputs rem, seq⟩ = (.got j a, ⟨ofInputs (rem.set j t), seq'⟩))
+    ∨ (AllEmpty rem ∧ ∃ seq', rrDecode ⟨ofInputs rem, seq⟩ = (.err eEOF, ⟨ofInputs rem, seq'⟩)) := by
+  have hmod : seq % rem.length < rem.length := Nat.mod_lt _ hn
+  have hhalf := aux_half _ hd hlt
+  have hc := aux_decode_congr (ofInputs rem) (by rw [aux_len]; exact hd) seq (seq % rem.length)
+    (by rw [aux_len, Nat.mod_mod])
+  obtain ⟨c1, c2, _⟩ := hc
+  have heta : rrDecode ⟨ofInputs rem, seq⟩ =
+      ((rrDecode ⟨ofInputs rem, seq⟩).1, ⟨(rrDecode ⟨ofInputs rem, seq⟩).2.decs, (rrDecode ⟨ofInputs rem, seq⟩).2.seq⟩) := rfl
+  rcases aux_decode_spec rem (seq % rem.length) hn (by omega) with
+    ⟨j, a, t, seq1, hget, hj, _, hdec⟩ | ⟨hall, seq1, _, hdec⟩
+  · left
+    refine ⟨j, a, t, (rrDecode ⟨ofInputs rem, seq⟩).2.seq, hget, hj, ?_⟩
+    rw [heta, c1, c2, hdec]
+  · right
+    refine ⟨hall, (rrDecode ⟨ofInputs rem, seq⟩).2.seq, ?_⟩
+    rw [heta, c1, c2, hdec]
+
+theorem aux_drain_dvd {α} : ∀ (fuel : Nat) (rem : List (List α)) (seq : Nat), 0 < rem.length →
+    rem.length ∣ two64 → rem.length < two64 → rem.flatten.length < fuel →
+    ∃ out rem' seq', drain fuel ⟨ofInputs rem, seq⟩ = (out, ⟨ofInputs rem', seq'⟩, some eEOF) ∧
+      AllEmpty rem' ∧ rem'.length = rem.length ∧
+      (out.map (·.2)).Perm rem.flatten ∧
+      (∀ i, fromInput out i = rem.getD i []) ∧
+      (∀ x ∈ out, x.1 < rem.length) := by
+  intro fuel
+  induction fuel with
+  | zero => intro rem seq _ _ _ h; omega
+  | succ fuel ih =>
+    intro rem seq hn hd hlt htot
+    rcases aux_decode_spec_dvd rem seq hn hd hlt with ⟨j, a, t, seq1, hget, hj, hdec⟩ | ⟨hall, seq1, hdec⟩
+    · have hperm := aux_flatten_set rem j a t hget
+      have hlen : (rem.set j t).length = rem.length := by simp
+      have hfl : (rem.set j t).flatten.length + 1 = rem.flatten.length := by
+        have := hperm.length_eq; simp only [List.length_cons] at this; omega
+      obtain ⟨out, rem', seq', hdr, hemp, hl', hp, hf, htag⟩ :=
+        ih (rem.set j t) seq1 (by omega) (by rw [hlen]; exact hd) (by omega) (by omega)
+      refine ⟨(j, a) :: out, rem', seq', ?_, hemp, by omega, ?_, ?_, ?_⟩
+      · simp only [drain, hdec, hdr]
+      · simp only [List.map_cons]
+        exact (List.Perm.cons a hp).trans hperm.symm
+      · intro i
+        have hi := hf i
+        by_cases hji : j = i
+        · subst hji
+          simp only [fromInput, List.filter_cons, beq_self_eq_true, ↓reduceIte, List.map_cons]
+          simp only [fromInput] at hi
+          rw [hi, hget]
+          simp [List.getD_eq_getElem?_getD, List.getElem?_set_self hj]
+        · have hne : ((j, a).1 == i) = false := by simpa using hji
+          simp only [fromInput, List.filter_cons, hne]
+          simp only [fromInput] at hi
+          simp only [Bool.false_eq_true, ↓reduceIte]
+          rw [hi]
+          simp [List.getD_eq_getElem?_getD, List.getElem?_set_ne hji]
+      · intro x hx
+        rcases List.mem_cons.mp hx with h | h
+        · subst h; exact hj
+        · have := htag x h; omega
+    · refine ⟨[], rem, seq1, ?_, hall, rfl, ?_, ?_, ?_⟩
+      · simp only [drain, hdec]
+      · simp [aux_allEmpty_flatten rem hall]
+      · intro i
+        have := aux_allEmpty_getD rem hall i
+        simpa [fromInput] using this.symm
+      · intro x hx; cases hx
+
+/-- **The wrap of the `uint64` rotation counter is harmless when the number of inputs divides 2^64**
+(1, 2, 4, 8, … inputs): `seq % n` then continues across the wrap, and for EVERY counter value and any
+number of calls draining yields every record exactly once, each input in its own order, and ends with
+`io.EOF` only when all inputs are exhausted — no no-wrap hypothesis. -/
+theorem rr_wrap_harmless_when_length_divides {α} (inputs : List (List α)) (seq fuel : Nat)
+    (hn : 0 < inputs.length) (hd : inputs.length ∣ two64) (hlt : inputs.length < two64)
+    (hfuel : inputs.flatten.length < fuel) :
+    ∃ out s', drain fuel ⟨ofInputs inputs, seq⟩ = (out, s', some eEOF) ∧
+      (out.map (·.2)).Perm inputs.flatten ∧ (∀ i, fromInput out i = inputs.getD i []) ∧
+      (∀ x ∈ out, x.1 < inputs.length) := by
+  obtain ⟨out, rem', seq', h, _, _, hp, hf, ht⟩ := aux_drain_dvd fuel inputs seq hn hd hlt hfuel
+  exact ⟨out, _, h, hp, hf, ht⟩
+
+/-- … and a call returns an error exactly when all inputs are exhausted, at every counter value. -/
+theorem rr_eof_iff_all_exhausted_when_length_divides {α} (rem : List (List α)) (seq : Nat)
+    (hn : 0 < rem.length) (hd : rem.length ∣ two64) (hlt : rem.length < two64) :
+    (∃ e s', rrDecode ⟨ofInputs rem, seq⟩ = (.err e, s')) ↔ AllEmpty rem := by
+  rcases aux_decode_spec_dvd rem seq hn hd hlt with ⟨j, a, t, seq1, hget, hj, hdec⟩ | ⟨hall, seq1, hdec⟩
+  · constructor
+    · rintro ⟨e, s', h⟩; rw [hdec] at h; cases h
+    · intro h
+      have := aux_allEmpty_getD rem h j
+      rw [hget] at this; cases this
+  · exact ⟨fun _ => hall, fun _ => ⟨_, _, hdec⟩⟩
+
+/-- **For other numbers of inputs the wrap is not harmless**: with three inputs and the counter two
+below 2^64, the three attempts of one call have the residues 2, 0, 0 (2^64 ≡ 1 mod 3): input 1 is
+never asked, and the call reports `io.EOF` although input 1 still holds a record.  (Reaching this
+state takes 2^64 − 2 decode attempts; it is the reason for the no-wrap hypothesis of the theorems
+for arbitrary `n`.) -/
+theorem rr_wrap_counterexample_three_inputs :
+    (rrDecode ⟨ofInputs [[], [7], []], 18446744073709551614⟩).1 = (Step.err eEOF : Step Nat) ∧
+    ¬ AllEmpty ([[], [7], []] : List (List Nat)) := by
+  refine ⟨by decide, ?_⟩
+  intro h; have := h [7] (by simp); cases this
+
+example : (4 : Nat) ∣ two64 ∧ (4 : Nat) < two64 := by decide
+
+/-! ### the report loop with intermediate reports (ticks) -/
+
+def tickPrefixes {α} : List α → List (Ev α) → List (List α)
+  | _, [] => []
+  | acc, .got a :: es => tickPrefixes (acc ++ [a]) es
+  | acc, .tick :: es => acc :: tickPrefixes acc es
+
+theorem aux_reportRun {α ρ β} (R : Report α ρ β)
+    (hcl : ∀ s a, R.close (R.add (R.close s) a) = R.close (R.add s a))
+    (hcc : ∀ s, R.close (R.close s) = R.close s) (init : ρ) :
+    ∀ (evs : List (Ev α)) (s : ρ) (acc : List α), R.close s = R.close (acc.foldl R.add init) →
+      R.close (reportRun R s evs).2 = R.close ((acc ++ recordsOf evs).foldl R.add init) ∧
+      (reportRun R s evs).1 = (tickPrefixes acc evs).map (fun rs => R.render (R.close (rs.foldl R.add init))) := by
+  intro evs
+  induction evs with
+  | nil => intro s acc h; simpa [reportRun, recordsOf, tickPrefixes] using h
+  | cons e es ih =>
+    intro s acc h
+    cases e with
+    | got a =>
+      have h' : R.close (R.add s a) = R.close ((acc ++ [a]).foldl R.add init) := by
+        rw [List.foldl_append, List.foldl_cons, List.foldl_nil, ← hcl s a, h, hcl]
+      have := ih (R.add s a) (acc ++ [a]) h'
+      simpa [reportRun, recordsOf, tickPrefixes, List.append_assoc] using this
+    | tick =>
+      have h' : R.close (R.close s) = R.close (acc.foldl R.add init) := by rw [hcc, h]
+      have := ih (R.close s) acc h'
+      simp only [reportRun, recordsOf, tickPrefixes, List.map_cons]
+      exact ⟨this.1, by rw [this.2, h]⟩
+
+/-- **Intermediate reports do not change the final report** (generic form): for a report whose `Close`
+is idempotent and transparent to a following `Add`, and for ANY placement of ticks between the
+records, the final report is the report over the records without ticks, and the report written at a
+tick is the report over the records read so far. -/
+theorem report_ticks_invisible {α ρ β} (R : Report α ρ β)
+    (hcl : ∀ s a, R.close (R.add (R.close s) a) = R.close (R.add s a))
+    (hcc : ∀ s, R.close (R.close s) = R.close s) (init : ρ) (evs : List (Ev α)) :
+    (reportCmd R init evs).2 = R.render (R.close ((recordsOf evs).foldl R.add init)) ∧
+    (reportCmd R init evs).1 = (tickPrefixes [] evs).map (fun rs => R.render (R.close (rs.foldl R.add init))) := by
+  have := aux_reportRun R hcl hcc init evs init [] rfl
+  simp only [List.nil_append] at this
+  exact ⟨by simp only [reportCmd]; rw [this.1], this.2⟩
+
+/-- reports that are no `Closer` (the histogram report): both laws hold trivially -/
+theorem report_ticks_invisible_no_closer {α ρ β} (add : ρ → α → ρ) (render : ρ → β) (init : ρ) (evs : List (Ev α)) :
+    (reportCmd ⟨add, id, render⟩ init evs).2 = render ((recordsOf evs).foldl add init) :=
+  (report_ticks_invisible ⟨add, id, render⟩ (fun _ _ => rfl) (fun _ => rfl) init evs).1
+
+section MetricsTicks
+open Vegeta.Model.Metrics Vegeta.Spec.Metrics Vegeta.Props.C10
+
+/-- the metrics report of lib/metrics.go as the `report` command uses it (types text, json, hdrplot) -/
+def metricsReport : Report Result Metrics Vegeta.Model.Metrics.Report := ⟨Vegeta.Model.Metrics.add, Vegeta.Model.Metrics.close, report⟩
+
+def opsOf : List (Ev Result) → List Op
+  | [] => []
+  | .got r :: es => .add r :: opsOf es
+  | .tick :: es => .close :: opsOf es
+
+theorem aux_adds_opsOf (evs : List (Ev Result)) : adds (opsOf evs) = recordsOf evs := by
+  induction evs with
+  | nil => rfl
+  | cons e es ih => cases e <;> simp [opsOf, adds, recordsOf, ih]
+
+theorem aux_adds_append (o1 o2 : List Op) : adds (o1 ++ o2) = adds o1 ++ adds o2 := by
+  induction o1 with
+  | nil => rfl
+  | cons o os ih => cases o <;> simp [adds, ih]
+
+theorem aux_metricsRun : ∀ (evs : List (Ev Result)) (ops0 : List Op),
+    (reportRun metricsReport (run Metrics.init ops0) evs).2 = run Metrics.init (ops0 ++ opsOf evs) ∧
+    (reportRun metricsReport (run Metrics.init ops0) evs).1 =
+      (tickPrefixes (adds ops0) evs).map closedReport := by
+  intro evs
+  induction evs with
+  | nil => intro ops0; simp [reportRun, opsOf, tickPrefixes]
+  | cons e es ih =>
+    intro ops0
+    cases e with
+    | got r =>
+      have hs : Vegeta.Model.Metrics.add (run Metrics.init ops0) r = run Metrics.init (ops0 ++ [.add r]) := by
+        simp [run, List.foldl_append, step]
+      have := ih (ops0 ++ [.add r])
+      simp only [reportRun, metricsReport, opsOf, tickPrefixes] at this ⊢
+      rw [hs]
+      refine ⟨by rw [this.1, List.append_assoc]; rfl, ?_⟩
+      rw [this.2, aux_adds_append]; rfl
+    | tick =>
+      have hs : Vegeta.Model.Metrics.close (run Metrics.init ops0) = run Metrics.init (ops0 ++ [.close]) := by
+        simp [run, List.foldl_append, step]
+      have := ih (ops0 ++ [.close])
+      simp only [reportRun, metricsReport, opsOf, tickPrefixes, List.map_cons] at this ⊢
+      rw [hs]
+      refine ⟨by rw [this.1, List.append_assoc]; rfl, ?_⟩
+      rw [this.2, aux_adds_append]
+      simp only [adds, List.append_nil, List.cons.injEq, and_true]
+      -- the report written at the tick
+      have hc : report (run Metrics.init (ops0 ++ [.close])) = closedReport (adds ops0) := by
+        have h1 : run Metrics.init (ops0 ++ [.close]) = close (run Metrics.init ops0) := by
+          simp [run, List.foldl_append, step]
+        rw [h1, interleaved_close]; rfl
+      exact hc
+
+/-- **Intermediate reports do not change the final metrics report**: for ANY placement of ticks between
+the records the `report` command reads, the final report is the closed report over the records
+without ticks, and each intermediate report is the closed report over the records read so far. -/
+theorem report_ticks_invisible_metrics (evs : List (Ev Result)) :
+    (reportCmd metricsReport Metrics.init evs).2 = closedReport (recordsOf evs) ∧
+    (reportCmd metricsReport Metrics.init evs).1 = (tickPrefixes [] evs).map closedReport := by
+  have := aux_metricsRun evs []
+  simp only [List.nil_append, run, List.foldl_nil] at this
+  refine ⟨?_, by simpa [reportCmd, adds] using this.2⟩
+  simp only [reportCmd, metricsReport]
+  have h1 : (reportRun metricsReport Metrics.init evs).2 = run Metrics.init (opsOf evs) := this.1
+  simp only [metricsReport] at h1
+  rw [h1, interleaved_close, aux_adds_opsOf]; rfl
+
+/-- **The `report` command over split files with periodic reporting**: for any two splits of the same
+result multiset and ANY placements of ticks in either run, the final reports agree in every field
+(error texts as a set), and equal the reference report of the union. -/
+theorem report_cmd_split_invariant_with_ticks (inputs₁ inputs₂ : List (List Result)) (fuel₁ fuel₂ : Nat)
+    (evs₁ evs₂ : List (Ev Result))
+    (hsame : inputs₁.flatten.Perm inputs₂.flatten) (hd : Domain inputs₁.flatten)
+    (hn₁ : 0 < inputs₁.length) (hn₂ : 0 < inputs₂.length)
+    (hf₁ : inputs₁.flatten.length < fuel₁) (hf₂ : inputs₂.flatten.length < fuel₂)
+    (hw₁ : inputs₁.length * fuel₁ < two64) (hw₂ : inputs₂.length * fuel₂ < two64)
+    (he₁ : recordsOf evs₁ = (drain fuel₁ (RR.init (ofInputs inputs₁))).1.map (·.2))
+    (he₂ : recordsOf evs₂ = (drain fuel₂ (RR.init (ofInputs inputs₂))).1.map (·.2)) :
+    withoutErrors (reportCmd metricsReport Metrics.init evs₁).2 = withoutErrors (reportCmd metricsReport Metrics.init evs₂).2 ∧
+    (reportCmd metricsReport Metrics.init evs₁).2.errors.Perm (reportCmd metricsReport Metrics.init evs₂).2.errors ∧
+    withoutErrors (reportCmd metricsReport Metrics.init evs₁).2 = withoutErrors (ref inputs₁.flatten) := by
+  obtain ⟨o1, s1, o2, s2, h1, h2, a, b, c, _⟩ :=
+    report_metrics_split_invariant inputs₁ inputs₂ fuel₁ fuel₂ hsame hd hn₁ hn₂ hf₁ hf₂ hw₁ hw₂
+  rw [(report_ticks_invisible_metrics evs₁).1, (report_ticks_invisible_metrics evs₂).1, he₁, he₂, h1, h2]
+  exact ⟨a, b, c⟩
+
+example : (reportCmd metricsReport Metrics.init [.got sample[0], .tick, .tick, .got sample[1], .got sample[2], .tick]).2 =
+    closedReport sample := (report_ticks_invisible_metrics _).1
+
+end MetricsTicks
 
 /-! ### source fact (regenerated from /repo by every check run) -/
 
